@@ -43,10 +43,10 @@ def build(u):
     u.raw("\n")
     u.fn(pp, pp.find_fn_in(im, "new"), "payment_provider::PayPaymentProvider::new", stub=True)
     u.raw("}\nimpl<R: ClnRpc> PaymentProvider for PayPaymentProvider<R> {}\n}\npub use payment_provider::{PayPaymentProvider, PaymentProvider};\n")
-    u.raw("pub mod block_watcher { pub trait BlockProvider {} pub struct BlockWatcher { pub _p: u8 } impl BlockProvider for BlockWatcher {} }\n"
-          "pub mod email { pub trait NotificationService {} pub struct EmailNotificationService { pub _p: u8 } impl NotificationService for EmailNotificationService {} }\n"
+    u.env("config_watcher_env.rs")
+    u.raw("pub mod email { pub trait NotificationService {} pub struct EmailNotificationService { pub _p: u8 } impl NotificationService for EmailNotificationService {} }\n"
           "pub mod store { pub trait Datastore {} pub struct ClnDatastore { pub _p: u8 } impl Datastore for ClnDatastore {} }\n"
-          "pub use block_watcher::{BlockProvider, BlockWatcher}; pub use email::{NotificationService, EmailNotificationService}; pub use store::{Datastore, ClnDatastore};\n"
+          "pub use block_watcher::{BlockProvider, BlockWatcher, JoinHandle}; pub use email::{NotificationService, EmailNotificationService}; pub use store::{Datastore, ClnDatastore};\n"
           "pub struct GetinfoResponse { pub id: PublicKey }\n")
     u.raw("impl<K, V> HashMap<K, V> { #[verifier::external_body] pub fn new() -> (r: Self) { unimplemented!() } }\n"
           "impl<T> Mutex<T> { #[verifier::external_body] pub fn new(t: T) -> (r: Self) { unimplemented!() } }\n")
@@ -67,10 +67,28 @@ def build(u):
                  "routing_policy (real struct), mpp_timeout Duration (forced by Duration::from_secs(u64)), payment_provider Arc<PayPaymentProvider<Rpc>> (forced by the real constructor); parameter rpc: Arc<Rpc> declared")
     u.slice(mn, f, "main::main#manager",
             r"^let htlc_manager = Arc::new\(HtlcManager::new\(HtlcManagerParams", r"^let htlc_manager = Arc::new\(HtlcManager::new\(HtlcManagerParams",
-            "fn main__manager(allow_self_route_hints: bool, block_watcher: Arc<BlockWatcher>, cltv_delta: u16, info: GetinfoResponse, mpp_timeout: Duration, "
+            "fn main__manager(rpc: Arc<Rpc>, allow_self_route_hints: bool, block_watcher: Arc<BlockWatcher>, cltv_delta: u16, info: GetinfoResponse, mpp_timeout: Duration, "
             "notification_service: Arc<EmailNotificationService>, payment_provider: Arc<PayPaymentProvider<Rpc>>, routing_policy: TrampolineRoutingPolicy, store: Arc<ClnDatastore>) "
             "-> (r: Arc<HtlcManager<BlockWatcher, EmailNotificationService, PayPaymentProvider<Rpc>, ClnDatastore>>)",
             tail="htlc_manager",
             note="slice main#manager: the wrapper's parameters are the locals the statement reads; their types are declared in the unit and forced by the real HtlcManagerParams field types")
+    pl = Src.get("plugin.rs")
+    u.raw("pub mod plugin {\nuse super::*;\n")
+    u.item(pl, "PluginState", "struct")
+    u.spec("config_state.rs")
+    u.impl(pl, "PluginState", ["new"], "plugin")
+    u.raw("}\npub use plugin::PluginState;\n")
+    u.slice(mn, f, "main::main#watcher",
+            r"^let mut block_watcher = BlockWatcher::new\(", r"^let block_watcher = Arc::new\(block_watcher\);",
+            "fn main__watcher(rpc: Arc<Rpc>) -> (r: ::std::result::Result<(Arc<BlockWatcher>, mpsc::Sender<()>, JoinHandle), Error>)",
+            tail="Ok((block_watcher, sender, block_join))",
+            note="slice main#watcher: from `let mut block_watcher = BlockWatcher::new(..)` to `let block_watcher = Arc::new(block_watcher);`; "
+                 "BlockWatcher is an env mirror (ghost identity + `started`; new/start are proved in unit height), rpc: Arc<Rpc> is declared")
+    u.slice(mn, f, "main::main#state",
+            r"^let state = PluginState::new\(", r"^let state = PluginState::new\(",
+            "fn main__state(rpc: Arc<Rpc>, block_watcher: Arc<BlockWatcher>, htlc_manager: Arc<HtlcManager<BlockWatcher, EmailNotificationService, PayPaymentProvider<Rpc>, ClnDatastore>>) "
+            "-> (state: PluginState<PayPaymentProvider<Rpc>>)",
+            tail="state",
+            note="slice main#state: the statement that builds the hooks' PluginState; its two free variables are declared with the types the real PluginState::new forces")
     u.auto_here(mn, "main")
     u.raw("} // verus!\nfn main() {}\n")
